@@ -233,6 +233,11 @@ def monitor(ops, outs):
                     fails.append(f"the state of call {seq} changed on `{o}`")
                 elif new_msgs and w[0] not in ("pub",):
                     fails.append(f"`{o}` published a message while call {seq} stayed as it was")
+            # "missed … when the configured timeout expires": while the call waits to be accepted the timer is running - when it goes off
+            # the call ends; a call which is still there afterwards has lost its timer and will never be replaced by `missed`
+            if w[0] == "timeout" and not pre_call["accepted"] and not ended:
+                fails.append(f"[timer-lost] the establishment timeout of call {seq} cannot fire: the call was not accepted, nobody hung up, and it "
+                             f"stays in progress for ever (every later invitation is answered busy)")
         elif p["call"] is not None and w[0] != "call":
             fails.append(f"a call appeared on `{w[0]}`")
         # --- relaying
